@@ -218,6 +218,7 @@ def main():
     kf = known_findings(pid)
     extra = None
     outs_by_config = {}
+    models_by_config = {}
     for feat, drv_arg in configs:
         hbin = build_harness(feat, log)
         cname = feat or "default"
@@ -237,6 +238,7 @@ def main():
                                "stderr": (err1 + err2)[-800:]})
             continue
         outs_by_config[cname] = impl
+        models_by_config[cname] = model
         seen = set()
         hist = corr["histogram"]
         for k, (c, a, b) in enumerate(zip(lines, impl, model)):
@@ -277,6 +279,11 @@ def main():
             if v == "drift":
                 corr["drift"] += 1
                 continue
+            if P.get("model_informational"):
+                # this property is decided by comparing CONFIGURATIONS with each other (cross oracle); a disagreement with the
+                # model that is the same in every configuration belongs to the property that owns that behaviour
+                corr["informational_model_disagreements"] = corr.get("informational_model_disagreements", 0) + 1
+                continue
             # the model fixes one of several outputs the property allows (e.g. tie-breaking among equally new candidates):
             # an implementation output that differs from the model's but still satisfies the property's own predicate is accepted
             if "accept" in P and P["accept"](c, a, b):
@@ -304,7 +311,7 @@ def main():
                 violations.append({"kind": "oracle: " + msg, "config": cname, "case": c, "found_input": True})
     # cross-configuration oracle on the implementation's own outputs (C19)
     if "cross" in P and len(outs_by_config) > 1:
-        for (c, msg) in P["cross"](lines, outs_by_config):
+        for (c, msg) in P["cross"](lines, outs_by_config, models_by_config):
             violations.append({"kind": "cross-configuration: " + msg, "case": c, "found_input": True})
     # property-specific extra phase (compile probes, threads, downstream crate …)
     if "extra" in P and not replay:
@@ -338,6 +345,7 @@ def main():
             "correspondence": {"configs": corr["configs"], "disagreements": corr["disagreements"],
                                "hard": corr["hard"], "soft_within_tolerance": corr["soft"],
                                "accepted_property_conformant_alternatives": corr.get("accepted_alternatives", 0),
+                               "informational_model_disagreements": corr.get("informational_model_disagreements", 0),
                                "drift_outside_owned_observables": corr["drift"],
                                "owned_observables": sorted(P["mask"]), "tolerance": P.get("tol")},
             "input_distribution": dict(sorted(corr["histogram"].items(), key=lambda kv: -kv[1])[:40]),
